@@ -135,7 +135,28 @@ def collector_correspondence(chk, rng, n):
             chk.disagree("Collect.Model vs hy_compile", src, mres, impl)
 
 
+# minimised former failures (fixed entries of known_findings.json), judged first on every run
+REGRESSIONS = [
+    # fixed 251f03c: the annotation of an annotated assignment was dropped when the value needs statements
+    ("(setv #^ (v0) a (if (v1a) (do (v1b) (v1c)) (v1d)))", ["v0", "v1a", "v1b", "v1c", "v1d"]),
+    ("(defn f [] (setv #^ (v0) a (try (v1) (except [E] (v2)))))", ["v0", "v1", "v2"]),
+]
+
+
 def slot_oracle(chk, rng, rounds):
+    for src, leaves in REGRESSIONS:
+        r = compile_src(src)
+        chk.count("slots:regression:" + r[0])
+        chk.case("S:" + src, nontrivial=(r[0] == "OK"))
+        if r[0] != "OK":
+            chk.fail("regression-does-not-compile", {"program": src}, r[1], "a Python AST", "hy_compile(hy.read_many(src))")
+            continue
+        missing = [v for v in leaves if v not in names_loaded(r[1])]
+        if missing:
+            chk.fail("subform-dropped", {"program": src, "missing": missing},
+                     "compiled code never mentions %s: %s" % (missing, ast.unparse(r[1])[:160]),
+                     "every evaluated subform appears in the compiled code, or a Hy error",
+                     "hy_compile(hy.read_many(src)); ast.walk Names")
     for rnd in range(rounds):
         for tpl in TEMPLATES:
             k = tpl.replace("%%", "").count("%s")
